@@ -79,6 +79,7 @@ pub struct Report {
     violations: Vec<Violation>,
     known_hits: BTreeMap<usize, u64>,
     n_unlisted: u64,
+    groups: BTreeMap<String, u64>,
     known: Vec<Known>,
     pub replay_mode: bool,
 }
@@ -126,6 +127,7 @@ impl Report {
             violations: Vec::new(),
             known_hits: BTreeMap::new(),
             n_unlisted: 0,
+            groups: BTreeMap::new(),
             known,
             replay_mode: false,
         }
@@ -159,6 +161,8 @@ impl Report {
     }
 
     pub fn violation(&mut self, v: Violation) {
+        // debugging aid: DX_FILTER=<substring> keeps only matching violations in the printed list
+        let keep = std::env::var("DX_FILTER").map(|f| v.what.contains(&f)).unwrap_or(true);
         // is it a listed known finding?
         for (i, k) in self.known.iter().enumerate() {
             if k.status == "known" && k.property == self.id && (k.symptom == v.symptom || (k.symptom.ends_with('*') && v.symptom.starts_with(k.symptom.trim_end_matches('*')))) && k.atoms.iter().all(|a| v.atoms.contains(a)) {
@@ -167,7 +171,9 @@ impl Report {
             }
         }
         self.n_unlisted += 1;
-        if self.violations.len() < 40 {
+        let gk = format!("{} {}", v.symptom, v.atoms.iter().filter(|a| a.starts_with("config=") || a.starts_with("trait=") || a.starts_with("derived=") || a.starts_with("group=")).cloned().collect::<Vec<_>>().join(" "));
+        *self.groups.entry(gk).or_insert(0) += 1;
+        if self.violations.len() < 12 && keep {
             self.violations.push(v);
         }
     }
@@ -265,6 +271,10 @@ impl Report {
             for (v, p) in self.violations.iter().zip(paths.iter()) {
                 println!("  {} :: {}", v.symptom, v.what);
                 println!("VIOLATION property={} replay={}", self.id, p);
+            }
+            println!("violation groups (symptom + config/trait atoms): ");
+            for (g, n) in self.groups.iter() {
+                println!("  {n:>7}  {g}");
             }
             if self.n_unlisted as usize > self.violations.len() {
                 println!("  ({} further violating cases not written out)", self.n_unlisted as usize - self.violations.len());
